@@ -5,6 +5,7 @@ import (
 	"encoding/json"
 	"errors"
 	"fmt"
+	"io"
 	"strings"
 	"time"
 
@@ -37,10 +38,23 @@ type c16Reader struct {
 	member   int
 	closed   int
 	closeErr error
+	reads    int
 	st       *c16State
 }
 
-func (r *c16Reader) Read(p []byte) (int, error) { return 0, errors.New("not read") }
+// Read delivers one byte, then ends the stream: cleanly, or with an error when the scenario's
+// member readers fail on Close as well (CloseErr scenarios double as "faulty reader" scenarios).
+func (r *c16Reader) Read(p []byte) (int, error) {
+	r.reads++
+	if r.reads == 1 && len(p) > 0 {
+		p[0] = 'x'
+		return 1, nil
+	}
+	if r.closeErr != nil {
+		return 0, errors.New("read failed mid-stream")
+	}
+	return 0, io.EOF
+}
 func (r *c16Reader) Close() error {
 	r.closed++
 	r.st.log(fmt.Sprintf("reader%d.Close", r.member))
@@ -193,6 +207,16 @@ func (st *c16State) body(s *vsched.Sched) {
 			vsync.Yield() // the caller uses the reader for a while
 			if ctx.Err() == nil && chosen.Err() != nil {
 				st.problem("chosen-context-cancelled-before-close", "context of the chosen member is cancelled while the returned reader is still open")
+			}
+			// ... and reads it to its end (or to its error): the reader is still open afterwards
+			buf := make([]byte, 8)
+			for i := 0; i < 4; i++ {
+				if _, rerr := rd.Read(buf); rerr != nil {
+					break
+				}
+			}
+			if ctx.Err() == nil && chosen.Err() != nil {
+				st.problem("chosen-context-cancelled-after-reading-before-close", "context of the chosen member is cancelled once the stream has been read to its end, although the returned reader is still open")
 			}
 			rd.Close()
 			if st.readers[m].closed == 0 {
